@@ -65,6 +65,9 @@ def jobs(ctx):
         chain=0.0057, n=8, sched=("heap_scheduler",))
     add("coulomb/cell_bounded*8", J + "coulomb_atoms/cell_bounded.ini", 0.05 if not t else 0.2, 0.0093, samp=0.0043,
         chain=0.0057, n=8, sched=("list_scheduler",))
+    # many pair handlers: the C heap grows past its first reallocation threshold (63 entries) and shrinks again
+    add("coulomb/power_bounded*12", J + "coulomb_atoms/power_bounded.ini", 1.2 if not t else 4.0, 0.13, samp=0.11,
+        chain=0.17, n=12, sched=("heap_scheduler",))
     add("dipoles/cell_bounded", J + "dipoles/cell_bounded.ini", 0.4 if not t else 1.2, 0.047, samp=0.011, chain=0.013)
     add("dipoles/dipole_motion", J + "dipoles/dipole_motion.ini", 5.0 if not t else 16.0, 0.71, samp=0.2, chain=0.27,
         sched=("heap_scheduler",) if not t else ("heap_scheduler", "list_scheduler"))
@@ -129,7 +132,8 @@ def run_job(name, spec, dump, seed, res, stats, pool, only_dump=None):
         ks = list(range(len(marks))) if only_dump is None else ([only_dump] if only_dump >= 0 else [])
         futs = {}
         for k in ks:
-            job = {"dump": os.path.join(work, "dump_%d.dat" % k), "out": os.path.join(work, "res_%d.json" % k)}
+            job = {"dump": os.path.join(work, "dump_%d.dat" % k), "out": os.path.join(work, "res_%d.json" % k),
+                   "max_events": 3 * len(log) + 300}  # a resumed run that lost its end-of-run event never ends
             futs[pool.submit(_run_worker, "resume", job)] = k
         for fut in concurrent.futures.as_completed(futs):
             k = futs[fut]
